@@ -27,6 +27,7 @@ import (
 	"encoding/gob"
 	"encoding/hex"
 	"encoding/json"
+	"encoding/pem"
 	"fmt"
 	"io"
 	"os"
@@ -222,6 +223,8 @@ const (
 	kACMAlloc    = "C15-ACM-alloc-size-fields"
 	allocBase    = 64 << 20
 	allocPerByte = 1000
+
+	maxViolationsPerDecoder = 25
 )
 
 // classifyKnown decides whether a property failure is exactly one of the listed findings.
@@ -343,6 +346,7 @@ type H struct {
 	skipped     int
 	seconds     map[string]float64
 	hangs       map[int]bool
+	unknown     map[int]int
 	retried     int
 }
 
@@ -420,6 +424,12 @@ func sumLit(summary string) string {
 // one runs one decoder call end to end: child, oracle, case.
 func (h *H) one(kind string, req request, recipe string) {
 	c := h.c
+	if h.unknown[req.Dec] >= maxViolationsPerDecoder {
+		// a broken decoder that hangs or exhausts memory costs seconds per call; its first
+		// failing inputs are on record, the rest of its cases are not run
+		c.Count(kind + " (not run: decoder already has " + fmt.Sprint(maxViolationsPerDecoder) + " violations)")
+		return
+	}
 	var pre1, pre2 []byte
 	if req.Dec == dACMInfo {
 		// the inputs of the model (UserArea, serialised module) come from the fiano front end;
@@ -534,6 +544,7 @@ func (h *H) one(kind string, req request, recipe string) {
 		c.OracleFailKnown(ci, k, what, name, descr)
 		return
 	}
+	h.unknown[req.Dec]++
 	c.OracleFail(ci, what, name, descr)
 }
 
@@ -889,7 +900,7 @@ func main() {
 		panic(err)
 	}
 	defer os.RemoveAll(wd)
-	h := &H{c: c, sup: &supervisor{workdir: wd}, classes: map[string]int{}, known: map[string]int{}, maxAlloc: map[string]uint64{}, seconds: map[string]float64{}, hangs: map[int]bool{}}
+	h := &H{c: c, sup: &supervisor{workdir: wd}, classes: map[string]int{}, known: map[string]int{}, maxAlloc: map[string]uint64{}, seconds: map[string]float64{}, hangs: map[int]bool{}, unknown: map[int]int{}}
 	defer h.sup.stop()
 	h.maxModelLen = c.Scale(6000, 70000)
 	q := func(a, b int) int { return c.Scale(a, b) }
@@ -1337,6 +1348,43 @@ func main() {
 		h.mutate("DecryptPrivKey/encrypted", dDecryptFrame, nil, enc, []byte("secret"), f+" sealed like encryptPrivFile, password secret", q(50, 300), q(20, 200), 0, 0, 12, 28)
 		h.run("DecryptPrivKey/encrypted", dDecryptFrame, nil, enc, []byte("wrong"), f+" sealed, wrong password")
 	}
+	// PEM files with several blocks: parsePrivateKey / ReadPubKey skip CERTIFICATE blocks in a loop of their own
+	pemBlock := func(typ string, n int) []byte {
+		return pem.EncodeToMemory(&pem.Block{Type: typ, Bytes: h.rbytes(n)})
+	}
+	kmPriv := repoFile("testdata/testkeys/km_priv_key.pem")
+	kmPub := repoFile("testdata/testkeys/km_pub_key.pem")
+	pemFiles := map[string][]byte{
+		"one CERTIFICATE block":                    pemBlock("CERTIFICATE", 64),
+		"two CERTIFICATE blocks":                   cat(pemBlock("CERTIFICATE", 64), pemBlock("CERTIFICATE", 10)),
+		"CERTIFICATE then private key":             cat(pemBlock("CERTIFICATE", 64), kmPriv),
+		"CERTIFICATE then public key":              cat(pemBlock("CERTIFICATE", 64), kmPub),
+		"three CERTIFICATEs then private key":      cat(pemBlock("CERTIFICATE", 1), pemBlock("CERTIFICATE", 0), pemBlock("CERTIFICATE", 300), kmPriv),
+		"private key then CERTIFICATE":             cat(kmPriv, pemBlock("CERTIFICATE", 64)),
+		"CERTIFICATE then garbage":                 cat(pemBlock("CERTIFICATE", 64), h.rbytes(40)),
+		"CERTIFICATE then truncated key":           cat(pemBlock("CERTIFICATE", 64), kmPriv[:len(kmPriv)/2]),
+		"TRUSTED CERTIFICATE then public key":      cat(pemBlock("TRUSTED CERTIFICATE", 20), kmPub),
+		"X509 CRL then key":                        cat(pemBlock("X509 CRL", 20), kmPriv),
+		"PRIVATE KEY block with random bytes":      pemBlock("PRIVATE KEY", 100),
+		"RSA PRIVATE KEY block with random bytes":  pemBlock("RSA PRIVATE KEY", 100),
+		"RSA PUBLIC KEY block with random bytes":   pemBlock("RSA PUBLIC KEY", 100),
+		"PUBLIC KEY block with random bytes":       pemBlock("PUBLIC KEY", 100),
+		"empty CERTIFICATE block":                  pemBlock("CERTIFICATE", 0),
+		"CERTIFICATE with headers":                 pem.EncodeToMemory(&pem.Block{Type: "CERTIFICATE", Headers: map[string]string{"Proc-Type": "4,ENCRYPTED"}, Bytes: h.rbytes(30)}),
+		"CERTIFICATE, text in between, CERTIFICATE": cat(pemBlock("CERTIFICATE", 8), []byte("some text\n"), pemBlock("CERTIFICATE", 8)),
+	}
+	for _, name := range sortedKeys(pemFiles) {
+		b := pemFiles[name]
+		h.run("DecryptPrivKey/pem-blocks", dDecryptFrame, nil, b, nil, name+" (no password)")
+		h.run("DecryptPrivKey/pem-blocks", dDecryptFrame, nil, encryptLikeRepo(b, "secret"), []byte("secret"), name+" sealed, password secret")
+		h.run("ReadPubKey/pem-blocks", dReadPubKey, nil, b, nil, name)
+	}
+	for _, f := range []string{"testdata/testkeys/km_pub_key.pem", "testdata/testkeys/bpm_pub_key.pem", "testdata/testkeys/km_priv_key.pem"} {
+		h.mutate("ReadPubKey", dReadPubKey, nil, repoFile(f), nil, f, q(30, 300), q(30, 300), 0, 0)
+	}
+	for i := 0; i < q(20, 200); i++ {
+		h.run("ReadPubKey/random", dReadPubKey, nil, h.rbytes(h.randomLen(q(2000, 65536))), nil, "random")
+	}
 	for n := 0; n <= 30; n++ {
 		h.run("DecryptPrivKey/short", dDecryptFrame, nil, h.rbytes(n), []byte("pw"), fmt.Sprintf("%d random bytes with a password", n))
 		h.run("DecryptPrivKey/short", dDecryptFrame, nil, h.rbytes(n), nil, fmt.Sprintf("%d random bytes without password", n))
@@ -1388,7 +1436,7 @@ func main() {
 	c.Rep.Extra["timeouts_not_confirmed"] = h.retried - len(h.hangs)
 	c.Rep.Extra["seconds_per_decoder"] = h.seconds
 	c.Rep.Notes = append(c.Rep.Notes,
-		"decoders 1..19 are modelled (Coq case per call up to "+fmt.Sprint(h.maxModelLen)+" input bytes); tools.ParseACM, UnmarshalYAML, registers.New, CalcImageOffset/GetRegion, tpmeventlog.Parse and the third-party parsers behind them (fiano, go-attestation, yaml, json, pem/x509, aes-gcm) are fuzzed with the oracle only",
+		"decoders 1..19 are modelled (Coq case per call up to "+fmt.Sprint(h.maxModelLen)+" input bytes); tools.ParseACM, UnmarshalYAML, registers.New, CalcImageOffset/GetRegion, tpmeventlog.Parse, bootguard.ReadPubKey and the third-party parsers behind them (fiano, go-attestation, yaml, json, pem/x509, aes-gcm) are fuzzed with the oracle only",
 		"each call runs in a child process with RLIMIT_AS = 4 GiB and a 2 s deadline (the first time-out of a decoder is confirmed with a 20 s deadline before it counts); allocation = runtime.MemStats.TotalAlloc delta around the call")
 	c.Finish("model and implementation agree on every call: same outcome class (value/error/panic/out-of-memory), same decoded value (flattened field by field), " +
 		"and model allocation <= observed allocation <= 4 x model + 1 KiB/input byte + 4 MiB; inputs = every valid sample shipped in the repository per decoder, " +
